@@ -42,7 +42,7 @@ def run(ctx):
     all_true = all_false = 0
     for part, cfgname in (('pair', f'AuthzPerm.Pair_{tier}.cfg'), ('set', f'AuthzPerm.Set_{tier}.cfg')):
         # 1. TLC: contract invariants on every case; the dump is the complete case table
-        r = ctx.tlc_must_pass('AuthzPerm', _cfg(ctx, cfgname, types), timeout=900, dump=True, workers=8, tag='perm-' + part)
+        r = ctx.tlc_must_pass('AuthzPerm', _cfg(ctx, cfgname, types), timeout=1800, dump=True, tag='perm-' + part)
         cases = []
         for st in ctx.dump_states(r):
             cases.append({'mode': 'perm', 'ps': st['ps'], 'req': st['req'], 'exp': st['exp']})
@@ -54,7 +54,7 @@ def run(ctx):
             raise vlib.Inconclusive(f'dump has {len(cases)} states, TLC reported {r.distinct}')
         total_cases += len(cases)
         # 2. replay every case
-        res, lines = ctx.replay(binary, cases, args={'schemes': ','.join(map(str, schemes))}, timeout=900)
+        res, lines = ctx.replay(binary, cases, args={'schemes': ','.join(map(str, schemes))}, timeout=1800)
         ctx.absorb(res, lines)
         ctx.extra_cov[f'{part}_cases'] = len(cases)
     # vacuity guard: both answers occur
